@@ -17,7 +17,11 @@
 //!
 //! `nvh parse gen --seed S --n N --kind prog|mut|deep|mix`   request lines from the generators
 //! `nvh parse gen --seed S --n N --kind pairs`               2N lines: a program, then the same tokens
-//!                                                            re-laid-out (+ redundant parentheses)
+//!                                                            re-laid-out (+ redundant parentheses at the
+//!                                                            wrap points of `G`: every `parse_expression(0)`
+//!                                                            position, every atom, the head and every prefix
+//!                                                            of a postfix chain — also under a unary
+//!                                                            operator —, callee names, receiver literals)
 //! `nvh parse mkreq`                                          stdin: one hex source per line -> request lines
 //! `nvh parse run`                                            answer request lines
 
@@ -345,9 +349,46 @@ impl G {
         }
     }
 
+    /// Position in the variant vector (0 outside variant mode): where a sub-expression starts.
+    fn vpos(&self) -> usize {
+        self.v.as_ref().map_or(0, |(_, v)| v.len())
+    }
+
+    /// Wrap point for what was emitted since `start` (a primary followed by postfix operators, i.e. a
+    /// prefix of a postfix chain): in variant mode, sometimes, `(` is inserted at `start` and `)`
+    /// appended. `hot` = the chain is the operand of a unary operator (wrapped more often).
+    fn wrap_since(&mut self, start: usize, hot: bool) {
+        if let Some((r, v)) = &mut self.v
+            && r.chance(1, if hot { 3 } else { 5 })
+        {
+            v.insert(start, "(".to_string());
+            v.push(")".to_string());
+        }
+    }
+
+    /// Wrap point around a primary that is FOLLOWED BY POSTFIX OPERATORS (member, index, call) and may
+    /// stand under a unary operator: `minus (x).abs()`, `not (a)[1]`, `(f)(1)`. Wrapped more often than
+    /// other atoms: the group is a primary like any other, the operators after `)` must still apply to
+    /// it before any prefix operator does.
+    fn head_open(&mut self, hot: bool) -> u32 {
+        let Some((r, v)) = &mut self.v else { return 0 };
+        let k = if r.chance(if hot { 2 } else { 1 }, 3) {
+            if r.chance(1, 8) { 2 } else { 1 }
+        } else {
+            0
+        };
+        for _ in 0..k {
+            v.push("(".to_string());
+        }
+        k
+    }
+
     /// An expression in a position where the parser calls `parse_expression(0)`: the value of an
     /// assignment / `return`, a call argument, an array element, an index, the inside of `( )`, an
-    /// `if to say` / `jasi` condition. There `e` and `( e )` give the same tree.
+    /// `if to say` / `jasi` condition. There `e` and `( e )` give the same tree. The other wrap points
+    /// are the primaries: atoms (`atom`), the head of a postfix chain, a callee name, the receiver
+    /// literal of a method call (`head_open`), and every prefix of a postfix chain (`wrap_since`) —
+    /// a parenthesised group is a primary wherever a primary may stand, under a unary operator too.
     fn expr0(&mut self, d: u32) {
         let k = self.wrap_open();
         self.expr(d);
@@ -460,7 +501,13 @@ impl G {
             6 => {
                 let op = if self.rng.chance(1, 2) { "not" } else { "minus" };
                 self.p(op);
-                self.expr(d + 1);
+                // half of the operands are postfix chains: `minus x.abs()`, `not a[1]`, `minus f(1)`
+                // (postfix binds tighter than the prefix operator, whatever the head looks like)
+                match self.rng.below(4) {
+                    0 | 1 => self.postfix_chain(d + 1, true),
+                    2 => self.literal_method(d + 1, true),
+                    _ => self.expr(d + 1),
+                }
             }
             7 => {
                 self.p("(");
@@ -468,52 +515,71 @@ impl G {
                 self.p(")");
             }
             8 => self.args(d, "[", "]"),
-            9..=11 => {
-                // postfix chain on a primary
-                match self.rng.below(4) {
-                    0 => {
-                        self.p("(");
-                        self.expr0(d + 1);
-                        self.p(")");
-                    }
-                    1 => self.args(d, "[", "]"),
-                    _ => {
-                        let n = self.name();
-                        self.p(&n)
-                    }
-                }
-                let k = 1 + self.rng.below(3);
-                for _ in 0..k {
-                    match self.rng.below(3) {
-                        0 => self.args(d, "(", ")"),
-                        1 => {
-                            self.p("[");
-                            self.expr0(d + 1);
-                            self.p("]");
-                        }
-                        _ => {
-                            self.p(".");
-                            let f = *self.rng.pick(FIELDS);
-                            self.p(f);
-                        }
-                    }
-                }
-            }
-            12 => {
-                // method call on a literal
-                let s = if self.rng.chance(1, 2) { self.string() } else { format!("{}.5", self.rng.below(9)) };
-                self.p(&s);
-                self.p(".");
-                let f = *self.rng.pick(FIELDS);
-                self.p(f);
-                self.args(d, "(", ")");
-            }
+            9..=11 => self.postfix_chain(d, false),
+            12 => self.literal_method(d, false),
             _ => {
+                let start = self.vpos();
                 let n = self.name();
+                let k = self.head_open(false);
                 self.p(&n);
+                self.wrap_close(k);
                 self.args(d, "(", ")");
+                self.wrap_since(start, false);
             }
         }
+    }
+
+    /// A primary followed by 1–3 postfix operators (call, index, member). Wrap points (variant mode):
+    /// the head, and every prefix of the chain — `(x).f(1)[2]`, `(x.f)(1)[2]`, `(x.f(1))[2]`.
+    /// `hot`: the chain is the operand of a unary operator.
+    fn postfix_chain(&mut self, d: u32, hot: bool) {
+        let start = self.vpos();
+        let k = self.head_open(hot);
+        match self.rng.below(4) {
+            0 => {
+                self.p("(");
+                self.expr0(d + 1);
+                self.p(")");
+            }
+            1 => self.args(d, "[", "]"),
+            _ => {
+                let n = self.name();
+                self.p(&n)
+            }
+        }
+        self.wrap_close(k);
+        let k = 1 + self.rng.below(3);
+        for _ in 0..k {
+            match self.rng.below(3) {
+                0 => self.args(d, "(", ")"),
+                1 => {
+                    self.p("[");
+                    self.expr0(d + 1);
+                    self.p("]");
+                }
+                _ => {
+                    self.p(".");
+                    let f = *self.rng.pick(FIELDS);
+                    self.p(f);
+                }
+            }
+            self.wrap_since(start, hot);
+        }
+    }
+
+    /// Method call on a literal: `"s".len()`, `2.5.abs()`; the literal is a wrap point.
+    fn literal_method(&mut self, d: u32, hot: bool) {
+        let start = self.vpos();
+        let s = if self.rng.chance(1, 2) { self.string() } else { format!("{}.5", self.rng.below(9)) };
+        let k = self.head_open(hot);
+        self.p(&s);
+        self.wrap_close(k);
+        self.p(".");
+        let f = *self.rng.pick(FIELDS);
+        self.p(f);
+        self.wrap_since(start, hot);
+        self.args(d, "(", ")");
+        self.wrap_since(start, hot);
     }
 
     fn block(&mut self, d: u32) {
